@@ -1272,3 +1272,104 @@ def m_to_string(I, a, t, c):
     while isinstance(v, RefV):
         v = I.load(v)
     return v
+
+
+@model('std::mem::swap')
+def m_swap(I, a, t, c):
+    x, y = I.load(a[0]), I.load(a[1])
+    I.store(a[0], y)
+    I.store(a[1], x)
+    return UNIT
+
+
+@model('std::mem::take')
+def m_take(I, a, t, c):
+    v = I.load(a[0])
+    if isinstance(v, StrV):
+        I.store(a[0], StrV([]))
+    elif isinstance(v, Agg) and v.kind == 'array':
+        I.store(a[0], Agg('array', 0, []))
+    else:
+        raise Unsupported('mem::take of %r' % (v,))
+    return v
+
+
+@model('std::string::String::is_empty')
+def m_string_is_empty(I, a, t, c):
+    return bv_bool(len(deref_all(I, a[0]).chars) == 0)
+
+
+@model('core::slice::<impl [T]>::iter_mut')
+def m_slice_iter_mut(I, a, t, c):
+    return m_slice_iter(I, a, t, c)
+
+
+# ---- bit_set::BitSet : Opaque(('bitset', frozenset))
+def _bs(I, v):
+    v = deref_all(I, v)
+    if isinstance(v, Opaque) and isinstance(v.tag, tuple) and v.tag[0] == 'bitset':
+        return v.tag[1]
+    raise Unsupported('not a BitSet: %r' % (v,))
+
+
+def bitset(xs):
+    return Opaque(('bitset', frozenset(xs)))
+
+
+def _bs_iter(xs):
+    return Agg('iter', 0, [[BV(64, x) for x in sorted(xs)], 0])
+
+
+@model('bit_set::BitSet::symmetric_difference')
+def m_bs_symdiff(I, a, t, c):
+    return _bs_iter(_bs(I, a[0]) ^ _bs(I, a[1]))
+
+
+@model('bit_set::BitSet::difference')
+def m_bs_diff(I, a, t, c):
+    return _bs_iter(_bs(I, a[0]) - _bs(I, a[1]))
+
+
+@model('bit_set::BitSet::intersection')
+def m_bs_inter(I, a, t, c):
+    return _bs_iter(_bs(I, a[0]) & _bs(I, a[1]))
+
+
+@model('bit_set::BitSet::union')
+def m_bs_union(I, a, t, c):
+    return _bs_iter(_bs(I, a[0]) | _bs(I, a[1]))
+
+
+@model('bit_set::BitSet::iter')
+def m_bs_iterall(I, a, t, c):
+    return _bs_iter(_bs(I, a[0]))
+
+
+@model('bit_set::BitSet::len')
+def m_bs_len(I, a, t, c):
+    return BV(64, len(_bs(I, a[0])))
+
+
+@model('bit_set::BitSet::is_empty')
+def m_bs_is_empty(I, a, t, c):
+    return bv_bool(len(_bs(I, a[0])) == 0)
+
+
+@model('bit_set::BitSet::is_subset')
+def m_bs_subset(I, a, t, c):
+    return bv_bool(_bs(I, a[0]) <= _bs(I, a[1]))
+
+
+@model('bit_set::BitSet::is_superset')
+def m_bs_superset(I, a, t, c):
+    return bv_bool(_bs(I, a[0]) >= _bs(I, a[1]))
+
+
+@model('bit_set::BitSet::is_disjoint')
+def m_bs_disjoint(I, a, t, c):
+    return bv_bool(not (_bs(I, a[0]) & _bs(I, a[1])))
+
+
+@model('bit_set::BitSet::contains')
+def m_bs_contains(I, a, t, c):
+    return bv_bool(I.conc(a[1]) in _bs(I, a[0]))
